@@ -88,9 +88,10 @@ impl Property for C10 {
         ]
     }
 
-    fn run_case(&self, k: u64, rng: &mut Rng, _env: &Env, mon: &mut Monitor) {
+    fn run_case(&self, k: u64, rng: &mut Rng, env: &Env, mon: &mut Monitor) {
         let regime = if rng.chance(4, 5) { Regime::D } else { Regime::R };
         let mut cfg = InstCfg::new(regime);
+        cfg.deepen(env.tier == Tier::Thorough, k);
         cfg.max_vars = 5;
         let g = gen_instance(rng, &cfg);
         let mut inst = g.instance;
